@@ -29,7 +29,41 @@ META = {
 }
 
 
+def _name_order_disagrees(spec) -> bool:
+    """some eta = -1 node whose daughters, both with non-zero projections of opposite sign, are ordered differently by particle
+    name (what the coefficient naming uses) and by attached final state (what decides the helicity / opposite-helicity child)"""
+    from .. import topo
+
+    for tr in spec["transitions"]:
+        t = tr["topology"]
+        for n, nd in tr["nodes"].items():
+            if nd["eta"] != -1:
+                continue
+            ch = [e for e, ed in t.edges.items() if ed.originating_node_id == n]
+            if len(ch) != 2:
+                continue
+            (n0, h0), (n1, h1) = tr["states"][ch[0]], tr["states"][ch[1]]
+            if h0 * h1 >= 0:
+                continue
+            by_name = min(ch, key=lambda e: tr["states"][e][0])
+            by_set = min(ch, key=lambda e: tuple(topo.attached(t, e)))
+            if by_name != by_set:
+                return True
+    return False
+
+
+_TARGETED = {"n": 0}
+
+
 def spec_fn(rng):
+    # the first reactions are searched for: the two child orders of a parity-odd node disagree
+    if _TARGETED["n"] < 3:
+        _TARGETED["n"] += 1
+        for _ in range(3000):
+            # (opposite-sign projections of two integer-spin daughters need a parent of spin >= 2)
+            spec = U.synth_spec(rng, nfs=3, formalism="helicity", helset="full", maxspin2=4, ntop=1)
+            if spec and len(spec["transitions"]) <= 60 and _name_order_disagrees(spec):
+                return spec
     return U.synth_spec(rng, nfs=rng.choice([2, 3, 3, 4]), formalism="helicity", helset=rng.choice(["full", "full", "restricted"]))
 
 
@@ -103,6 +137,7 @@ def cg_expansion_records(chk, name, tier):
 
 def run(chk, replay=None):
     tier = chk.tier
+    _TARGETED["n"] = 0
     chk.assume("TLC/SANY", "projection of chain terms (vf/ampl.py)", "coefficient sharing is read off the observed model")
     real = [("lc_pkpi", "helicity"), ("jpsi_ksp_sigma", "helicity")] + ([("jpsi_ksp_two", "helicity"), ("jpsi_gpp_f2", "helicity"), ("jpsi_3pi_rho", "helicity")] if tier == "thorough" else [])
     cases = ampl_run.build_cases(chk, n_synth=500 if tier == "thorough" else 60, configs=configs, real=real, which={"parity"}, budget_s=900 if tier == "thorough" else 40, spec_fn=spec_fn)
